@@ -181,7 +181,7 @@ func buildEnv(seed uint64, n int) *env {
 	}
 	e.custom = driver.Base{RenderFNs: fns}
 	g := gen.GenTree(cfgT)
-	repo := []string{"A:B AND C:D", "+foo OR (NOT(B))", "z:[* TO 10]", "(+a:b -c:d) OR (z:[1 TO *] NOT(foo))", `+bbq:"woo yay"`, "(a:b)^10", "a:foo~", "a:(foo OR baz OR bar)", "a:b*", "a:/b [c]/", "x:[10 TO *] AND NOT(y:[1 TO 5]", `title:"The Right Way" AND go`}
+	repo := []string{`status:(new OR open OR held OR 4 OR 5.5 OR closed OR "on hold" OR void OR sent OR open) AND NOT b:[1 TO 5]`, "A:B AND C:D", "+foo OR (NOT(B))", "z:[* TO 10]", "(+a:b -c:d) OR (z:[1 TO *] NOT(foo))", `+bbq:"woo yay"`, "(a:b)^10", "a:foo~", "a:(foo OR baz OR bar)", "a:b*", "a:/b [c]/", "x:[10 TO *] AND NOT(y:[1 TO 5]", `title:"The Right Way" AND go`}
 	for i := 0; i < n; i++ {
 		var q string
 		if i < len(repo) {
@@ -270,6 +270,12 @@ func stress(c StressCase, st *report.Stats) (*report.Failure, int) {
 	if f := unchanged(e, "after the sequential runs"); f != nil {
 		return f, 0
 	}
+	// deep burst: every goroutine renders the same deeply nested shared expressions
+	// at the same moment (aims at process-global counters, pools and limits that only
+	// bite when several deep calls are in flight)
+	if f := deepBurst(c); f != nil {
+		return f, 0
+	}
 	// concurrent phase: no synchronisation between workers apart from the start
 	// barrier and the final join (anything more would add happens-before edges and
 	// blind the race detector)
@@ -319,6 +325,71 @@ func stress(c StressCase, st *report.Stats) (*report.Failure, int) {
 		return f, overlaps
 	}
 	return nil, overlaps
+}
+
+func deepBurst(c StressCase) *report.Failure {
+	nest := func(open, mid, close string, n int) string {
+		return strings.Repeat(open, n) + mid + strings.Repeat(close, n)
+	}
+	queries := []string{nest("NOT (", "a:[1 TO 5]", ")", 220), nest("(", "a:b OR c:d", ")", 220), nest("a:1 AND (", "b:2", ")", 220), nest("+(", "a:(x OR y)", ")", 220)}
+	type res struct{ r, p, t string }
+	ref := make([]res, len(queries))
+	trees := make([]*expr.Expression, len(queries))
+	one := func(i int) res {
+		var out res
+		s, err := driver.NewPostgresDriver().Render(trees[i])
+		out.r = s + "|" + errS(err)
+		ps, pp, perr := driver.NewPostgresDriver().RenderParam(trees[i])
+		out.p = fmt.Sprintf("%s|%v|%s", ps, pp, errS(perr))
+		ts, terr := lucene.ToPostgres(queries[i])
+		out.t = ts + "|" + errS(terr)
+		return out
+	}
+	for i, q := range queries {
+		t, err := lucene.Parse(q)
+		if err != nil {
+			return nil // not parseable here: nothing to compare
+		}
+		trees[i] = t
+		ref[i] = one(i)
+	}
+	workers := c.Goroutines
+	if workers < 8 {
+		workers = 8
+	}
+	if workers > 32 {
+		workers = 32
+	}
+	fails := make([]string, workers)
+	start := make(chan struct{})
+	var wg sync.WaitGroup
+	for g := 0; g < workers; g++ {
+		wg.Add(1)
+		go func(g int) {
+			defer wg.Done()
+			defer func() {
+				if r := recover(); r != nil {
+					fails[g] = fmt.Sprintf("panic: %v", r)
+				}
+			}()
+			<-start
+			for round := 0; round < 3; round++ {
+				for i := range queries {
+					if got := one(i); got != ref[i] && fails[g] == "" {
+						fails[g] = fmt.Sprintf("goroutine %d: rendering the %d-byte nested query %.40q... concurrently gave %.200q / %.200q / %.200q, sequentially %.200q / %.200q / %.200q", g, len(queries[i]), queries[i], got.r, got.p, got.t, ref[i].r, ref[i].p, ref[i].t)
+					}
+				}
+			}
+		}(g)
+	}
+	close(start)
+	wg.Wait()
+	for _, f := range fails {
+		if f != "" {
+			return report.Failf("deep-burst-differs", "%s", f)
+		}
+	}
+	return nil
 }
 
 func history(l []opRec, e *env) string {
